@@ -72,7 +72,7 @@ def boot_landing(ctx, d, envfile, cfg_text, base=0x0E1ED000, via="lib"):
     for f in out.iterdir():
         f.unlink()
     cfg = d / "k.config"
-    cfg.write_text(cfg_text, encoding="utf-8")
+    cfg.write_bytes(cfg_text.encode("utf-8"))   # bytes: the line ends are part of the scenario (kconfig_text varies them)
     if via == "cli":
         subprocess.run(core.cli_cmd("image", "boot", "--input-file", envfile, "--storage-output-directory", out,
                                     "--storage-address", hex(base), "--config-file", cfg),
